@@ -34,6 +34,8 @@ struct vm_params {
 	uint32_t sparse_div;      /* one in sparse_div hops aimed at the sparse LP really reaches it */
 	double end_ts;            /* > 0: an LP is also done once it processes an event at or after this timestamp (all LPs become done within
 	                             a narrow band of virtual time: terminations cluster, rollbacks around the band flip them back and forth) */
+	uint8_t stateless[VM_MAXLP]; /* LPs that never call SetState(): pure routers whose every decision comes from the library generator, so
+	                             the generator context is their only rollbackable state (only with VM_STATELESS=1) */
 	int sparse_lp;            /* an LP that receives an event only once in a while and is done after one or two (-1: none): its terminating
 	                             event is usually speculative and, once cancelled, nothing else reaches it for a long time */
 };
